@@ -392,8 +392,25 @@ class Inliner:
                 if nm != p:
                     rename[p] = nm
                 pre.append(ast.copy_location(ast.Assign([ast.Name(nm, ast.Store())], copy.deepcopy(a), lineno=call.lineno), call))
+        # a helper local may keep its name when the caller only uses that name as the target of this very assignment
+        # (`indices = self._find_indices(..)` with a helper local `indices`): the statement overwrites it anyway
+        own_target = None
+        if isinstance(st, ast.Assign) and len(st.targets) == 1 and isinstance(st.targets[0], ast.Name) and st.value is (awaited_node or call):
+            own_target = st.targets[0].id
+            if any(isinstance(n, ast.Name) and n.id == own_target and isinstance(n.ctx, ast.Load) for a in (list(args.values())) for n in ast.walk(a)):
+                own_target = None
+        # copy propagation: `X = self._helper(..)` where the helper returns its own local `v` on every path: call that local X
+        h_rets = _returns_outside_nested(h.body)
+        h_names = _all_names(h)
+        if own_target and h_rets and all(isinstance(r.value, ast.Name) and r.value.id == h_rets[0].value.id for r in h_rets if True) and \
+                all(r.value is not None for r in h_rets):
+            v = h_rets[0].value.id
+            if v in helper_assigned and v != own_target and own_target not in h_names:
+                rename[v] = own_target
         for nme in helper_assigned:
-            if nme in caller_names:
+            if nme in rename:
+                continue
+            if nme in caller_names and nme != own_target and _live_after(fn, st, nme):
                 rename[nme] = f'{nme}__inl{k}'
         body = [s for s in h.body]
         if body and isinstance(body[0], ast.Expr) and isinstance(body[0].value, ast.Constant) and isinstance(body[0].value.value, str):
@@ -444,7 +461,9 @@ class Inliner:
                     result_expr = ast.Name(result_name, ast.Load())
                 out += body
                 _replace(st, whole, result_expr)
-                out.append(st)
+                if not (isinstance(st, ast.Assign) and len(st.targets) == 1 and isinstance(st.targets[0], ast.Name) and
+                        isinstance(st.value, ast.Name) and st.value.id == st.targets[0].id):
+                    out.append(st)
             else:
                 out += body
             self._count(hnode)
@@ -672,4 +691,50 @@ def _eval_test(test: ast.AST, whole: ast.AST, value) -> bool:
 
 
 def _has_elif_chain_dependency(st: ast.If) -> bool:
+    return False
+
+
+def _dfs(node, out):
+    out.append(node)
+    for c in ast.iter_child_nodes(node):
+        _dfs(c, out)
+
+
+def _live_after(fn, st: ast.stmt, name: str) -> bool:
+    """May the caller read `name` after the statement `st` without writing it first?  Conservative: any Load of the name that
+    comes after `st` in the function text, or anywhere inside a loop that encloses `st`, or inside a nested def / lambda."""
+    order: list = []
+    _dfs(fn, order)
+    pos = {id(n): i for i, n in enumerate(order)}
+    inside: list = []
+    _dfs(st, inside)
+    inside_ids = {id(n) for n in inside}
+    last = max(pos[id(n)] for n in inside if id(n) in pos)
+    # loops enclosing st
+    loops = []
+
+    def find(node, stack):
+        if node is st:
+            loops.extend(x for x in stack if isinstance(x, (ast.For, ast.AsyncFor, ast.While)))
+            return True
+        for c in ast.iter_child_nodes(node):
+            if find(c, stack + [node]):
+                return True
+        return False
+    find(fn, [])
+    loop_ids = set()
+    for lp in loops:
+        sub: list = []
+        _dfs(lp, sub)
+        loop_ids |= {id(n) for n in sub}
+    nested_ids = set()
+    for n in order:
+        if n is not fn and isinstance(n, FUNC + (ast.Lambda,)):
+            sub = []
+            _dfs(n, sub)
+            nested_ids |= {id(x) for x in sub}
+    for n in order:
+        if isinstance(n, ast.Name) and n.id == name and isinstance(n.ctx, ast.Load) and id(n) not in inside_ids:
+            if pos[id(n)] > last or id(n) in loop_ids or id(n) in nested_ids:
+                return True
     return False
